@@ -692,7 +692,7 @@ fn rule_of(prop: &str) -> &'static str {
 
 fn components() -> serde_json::Value {
     serde_json::json!({
-        "real": ["lexpr (parser, printer, Value/Datum) built from /repo working tree with feature verif-hooks", "itoa, ryu", "std::io::Bytes, BufReader, Chain, BufWriter, Write::write_all, Write::write_fmt, fmt machinery"],
+        "real": ["lexpr (parser, printer, Value/Datum) built from /repo working tree with feature verif-hooks", "itoa, ryu", if cfg!(feature = "serde-client") { "serde-lexpr (from_reader_custom and its error conversion in E-STREAM, to_writer/to_writer_custom in E-SINK) built from /repo working tree" } else { "serde-lexpr: not part of this build" }, "std::io::Bytes, BufReader, Chain, BufWriter, Write::write_all, Write::write_fmt, fmt machinery"],
         "stub": ["SimReader (io::Read endpoint)", "SimWriter (io::Write endpoint)", "SimFmtSink (fmt::Write endpoint)"],
         "not_simulated": ["threads, clocks, timers, network, allocation failure: lexpr has none of them (DESIGN.md section 2)"]
     })
